@@ -1,4 +1,6 @@
 import BlockModes.Thm.C03
+import BlockModes.Lemmas.CoreInst
+import BlockModes.Lemmas.CfbBuf
 /-
   C08 — byte-stream interfaces give the same bytes however the stream is cut into calls; one-shot CFB and
   CFB-8 are prefix-preserving.
@@ -55,5 +57,98 @@ theorem cfb8_oneshot_prefix (C : Cipher) (hC : C.Valid) (w : Nat) (iv m ext : By
     | cons a as ih => simp only [C03.bytesAsBlocks, List.map_cons, List.flatten_cons] at ih ⊢; rw [ih]; rfl
   rw [hf, hf]
   exact (cfb8_prefix C iv m ext).1
+
+/-! ### 2. buffered CFB: `BufEncryptor::encrypt` / `BufDecryptor::decrypt` under any chunking -/
+
+/-- the public call: `encrypt` on a `BufEncryptor`, `decrypt` on a `BufDecryptor`. -/
+def bufCall (dec : Bool) (C : Cipher) (s : CfbBuf.St) (data : Bytes) : Bytes × CfbBuf.St :=
+  if dec then CfbBuf.decrypt C s data else CfbBuf.encrypt C s data
+
+/-- successive calls on the pieces, state threaded through. -/
+def bufRun (dec : Bool) (C : Cipher) : CfbBuf.St → List Bytes → List Bytes × CfbBuf.St
+  | s, [] => ([], s)
+  | s, p :: ps =>
+    let r := bufCall dec C s p
+    let r2 := bufRun dec C r.2 ps
+    (r.1 :: r2.1, r2.2)
+
+theorem bufCall_eq_process (dec : Bool) (C : Cipher) (s : CfbBuf.St) (data : Bytes) :
+    bufCall dec C s data = CfbBuf.process dec C s data := by
+  cases dec
+  · simp [bufCall, CfbBuf.encrypt_eq_process]
+  · simp [bufCall, CfbBuf.decrypt_eq_process]
+
+theorem bufRun_refines (dec : Bool) (C : Cipher) (hC : C.Valid) :
+    ∀ (pieces : List Bytes) (s : CfbBuf.St) (a : RS), CfbBuf.Rel C s a → a.ch.length = C.bs →
+      (bufRun dec C s pieces).1.flatten = (RS.run dec C a pieces.flatten).1 ∧
+      CfbBuf.Rel C (bufRun dec C s pieces).2 (RS.run dec C a pieces.flatten).2 := by
+  intro pieces
+  induction pieces with
+  | nil => intro s a hR _; exact ⟨rfl, hR⟩
+  | cons p ps ih =>
+    intro s a hR hch
+    obtain ⟨h1, h2, h3⟩ := CfbBuf.process_refines dec C hC s a p hR hch
+    obtain ⟨i1, i2⟩ := ih _ _ h2 h3
+    simp only [bufRun, bufCall_eq_process, List.flatten_cons, RS.run_append]
+    exact ⟨by rw [h1, i1], i2⟩
+
+theorem init_rel (C : Cipher) (hC : C.Valid) (iv : Bytes) (hiv : iv.length = C.bs) :
+    CfbBuf.Rel C (CfbBuf.init C iv) (RS.init iv) :=
+  ⟨hC.enc_len iv hiv, rfl, hC.bs_pos, by simp [CfbBuf.init, RS.init]⟩
+
+/-- **buffered CFB, both directions**: feeding any pieces (empty ones, pieces straddling block boundaries) in
+    order produces the bytes of the byte-at-a-time reference machine on the concatenation. -/
+theorem cfbbuf_any_chunking (dec : Bool) (C : Cipher) (hC : C.Valid) (iv : Bytes) (hiv : iv.length = C.bs)
+    (pieces : List Bytes) :
+    (bufRun dec C (CfbBuf.init C iv) pieces).1.flatten = (RS.run dec C (RS.init iv) pieces.flatten).1 :=
+  (bufRun_refines dec C hC pieces _ _ (init_rel C hC iv hiv) hiv).1
+
+/-- hence: pieces in order = one call on the whole string, from a fresh instance … -/
+theorem cfbbuf_pieces_eq_whole (dec : Bool) (C : Cipher) (hC : C.Valid) (iv : Bytes) (hiv : iv.length = C.bs)
+    (pieces : List Bytes) :
+    (bufRun dec C (CfbBuf.init C iv) pieces).1.flatten = (bufCall dec C (CfbBuf.init C iv) pieces.flatten).1 := by
+  rw [cfbbuf_any_chunking dec C hC iv hiv pieces]
+  have := cfbbuf_any_chunking dec C hC iv hiv [pieces.flatten]
+  simp only [bufRun, List.flatten_cons, List.flatten_nil, List.append_nil] at this
+  exact this.symm
+
+/-- … and from any reachable state (any byte position inside a block). -/
+theorem cfbbuf_pieces_eq_whole_from (dec : Bool) (C : Cipher) (hC : C.Valid) (s : CfbBuf.St) (a : RS)
+    (hR : CfbBuf.Rel C s a) (hch : a.ch.length = C.bs) (pieces : List Bytes) :
+    (bufRun dec C s pieces).1.flatten = (bufCall dec C s pieces.flatten).1 := by
+  rw [(bufRun_refines dec C hC pieces s a hR hch).1]
+  have := (bufRun_refines dec C hC [pieces.flatten] s a hR hch).1
+  simp only [bufRun, List.flatten_cons, List.flatten_nil, List.append_nil] at this
+  exact this.symm
+
+/-! ### 3. the keystream wrapper: any cutting into pieces (empty ones included) -/
+
+/-- CTR (all flavours): feeding pieces in order gives the bytes of one call on the whole string, as long as
+    the whole string ends at or before the keystream limit. -/
+theorem ctr_pieces_eq_whole (C : Cipher) (hC : C.Valid) (hbs : C.bs < 256) (f : Flavor) (hw : f.w = 8 * f.cs)
+    (hcs : 0 < f.cs) (k : Nat) (hk : 0 < k) (iv : Bytes) (hiv : iv.length = k * f.cs) (hblk : C.bs = k * f.cs)
+    (w : Nat) (s : Wr Ctr.St) (blk : Nat) (hI : WInv (Ctr.core C f) (ctrKs C f iv) (ctrRep f iv) s blk)
+    (pieces : List Bytes)
+    (hfit : s.q (Ctr.core C f) blk + pieces.flatten.length ≤ (2 ^ f.w - 1) * C.bs) :
+    (Wr.runUnchecked (Ctr.core C f) w s pieces).1.flatten = (s.applyUnchecked (Ctr.core C f) w pieces.flatten).1 :=
+  pieces_eq_whole (ctr_coreSpec C hC hbs f hw hcs k hk iv hiv hblk) w pieces s blk hI (Or.inr hfit)
+
+theorem belt_pieces_eq_whole (C : Cipher) (hC : C.Valid) (hbs : C.bs = 16) (iv : Bytes)
+    (w : Nat) (s : Wr Belt.St) (blk : Nat) (hI : WInv (Belt.core C) (beltKs C iv) (beltRep C iv) s blk)
+    (pieces : List Bytes) (hfit : s.q (Belt.core C) blk + pieces.flatten.length ≤ (2 ^ 128 - 1) * C.bs) :
+    (Wr.runUnchecked (Belt.core C) w s pieces).1.flatten = (s.applyUnchecked (Belt.core C) w pieces.flatten).1 :=
+  pieces_eq_whole (belt_coreSpec C hC hbs iv) w pieces s blk hI (Or.inr hfit)
+
+/-- OFB has no limit. -/
+theorem ofb_pieces_eq_whole (C : Cipher) (hC : C.Valid) (hbs : C.bs < 256) (iv : Bytes) (hiv : iv.length = C.bs)
+    (w : Nat) (s : Wr Bytes) (blk : Nat) (hI : WInv (OfbCore.core C) (ofbKs C iv) (ofbRep C iv) s blk)
+    (pieces : List Bytes) :
+    (Wr.runUnchecked (OfbCore.core C) w s pieces).1.flatten = (s.applyUnchecked (OfbCore.core C) w pieces.flatten).1 :=
+  pieces_eq_whole (ofb_coreSpec C hC hbs iv hiv) w pieces s blk hI (Or.inl rfl)
+
+/-- for OFB the exhaustion check always passes, so `try_apply_keystream` *is* the unchecked body. -/
+theorem ofb_apply_never_fails (C : Cipher) (w : Nat) (s : Wr Bytes) (data : Bytes) :
+    s.apply (OfbCore.core C) w data = some (s.applyUnchecked (OfbCore.core C) w data) := by
+  simp [Wr.apply, Wr.checkRemaining, OfbCore.core]
 
 end Thm.C08
